@@ -367,6 +367,16 @@ let run_case (toks : sx list) : string =
        | _ ->
            let (l, st) = run M.lw_ops None [] in
            Printf.sprintf "res=%s bytes=%s" (res l) (hex_of_bytes st))
+  (* sip HEX K0 K1 : the header's SipHash and the specification's *)
+  | [A "sip"; A hex; A k0; A k1] ->
+      let m = bytes_of_hex hex in
+      Printf.sprintf "h=%s spec=%s" (string_of_n (M.nop_siphash (n_of_string k0) (n_of_string k1) m))
+        (string_of_n (M.siphash_spec (n_of_string k0) (n_of_string k1) m))
+  | [A "sipname"; A hex] ->
+      let m = bytes_of_hex hex in
+      let ih = n_of_string "1311768467294899695" in
+      Printf.sprintf "%s:%s:%s:%s:%s" hex (string_of_n (M.table_hash m)) (string_of_n (M.interface_hash m))
+        (string_of_n (M.method_selector false ih m)) (string_of_n (M.method_selector true ih m))
   (* fungrow T: model IsFungible<T, Tj> for every pool type Tj in pool order *)
   | [A "fungrow"; A tid] ->
       let t = ty_named tid in
